@@ -37,6 +37,59 @@ enum Verdict {
     Ambiguous,
     Unsupported(String),
     Violation(String),
+    /// disagreement explained exactly by one confirmed root cause (fixed key)
+    KnownCause { key: &'static str, what: String },
+}
+
+/// Confirmed engine deviations, keyed by root cause (call site).  A
+/// disagreement is attributed to one of them only if the reference evaluated
+/// under that alternative semantics reproduces the engine's rows exactly.
+const CAUSE_SETOP_ALL: &str = "setop-all-multiplicity:LogicalPlanBuilder::intersect_or_except";
+const CAUSE_NOT_IN_CORR: &str = "correlated-not-in-null-aware-anti-join-ignores-filter:HashJoinStream(null_aware)+decorrelate_predicate_subquery::build_join";
+
+fn attribute(ast: &Query, dbv: &Database, got: &[Row]) -> Option<&'static str> {
+    let mut has_all_setop = false;
+    chk_sql::sqlmc::ast::visit_query(
+        ast,
+        &mut |q| {
+            fn look(s: &chk_sql::sqlmc::ast::SetExpr, hit: &mut bool) {
+                use chk_sql::sqlmc::ast::{SetExpr, SetOp};
+                if let SetExpr::SetOp { op, all, left, right } = s {
+                    if *all && matches!(op, SetOp::Intersect | SetOp::Except) {
+                        *hit = true;
+                    }
+                    look(left, hit);
+                    look(right, hit);
+                }
+            }
+            look(&q.body, &mut has_all_setop);
+        },
+        &mut |_| {},
+        &mut |_| {},
+    );
+    let mut has_not_in = false;
+    chk_sql::sqlmc::ast::visit_query(ast, &mut |_| {}, &mut |e| {
+        if matches!(e, chk_sql::sqlmc::ast::Expr::InSubquery { negated: true, .. }) {
+            has_not_in = true;
+        }
+    }, &mut |_| {});
+    if has_not_in {
+        let alt = reference::evaluate_with(dbv, ast, reference::Quirks { not_in_null_check_ignores_correlation: true, ..Default::default() });
+        if let RefOutcome::Rows(r) = alt {
+            if compare(&r, got).is_ok() {
+                return Some(CAUSE_NOT_IN_CORR);
+            }
+        }
+    }
+    if has_all_setop {
+        let alt = reference::evaluate_with(dbv, ast, reference::Quirks { setop_all_as_semijoin: true, ..Default::default() });
+        if let RefOutcome::Rows(r) = alt {
+            if compare(&r, got).is_ok() {
+                return Some(CAUSE_SETOP_ALL);
+            }
+        }
+    }
+    None
 }
 
 fn check_one(sctx: &SessionContext, sql: &str, ast: &Query, dbv: &Database) -> Verdict {
@@ -54,7 +107,10 @@ fn check_one(sctx: &SessionContext, sql: &str, ast: &Query, dbv: &Database) -> V
         (RefOutcome::Rows(r), Err(e)) => Verdict::Violation(format!("engine failed where the reference defines {} row(s): {e}", r.expected_len())),
         (RefOutcome::Rows(r), Ok(g)) => match compare(&r, &g.rows) {
             Ok(()) => Verdict::Match { rows: r.window_rows() },
-            Err(w) => Verdict::Violation(w),
+            Err(w) => match attribute(ast, dbv, &g.rows) {
+                Some(key) => Verdict::KnownCause { key, what: w },
+                None => Verdict::Violation(w),
+            },
         },
         _ => unreachable!(),
     }
@@ -64,6 +120,7 @@ fn run_case(c: &Case) -> Result<(), String> {
     let sctx = engine::make_context(&c.db, &ContextOptions::default())?;
     match check_one(&sctx, &c.sql, &c.ast, &c.db) {
         Verdict::Violation(w) => Err(w),
+        Verdict::KnownCause { key, what } => Err(format!("[{key}] {what}")),
         Verdict::Unsupported(w) => Err(format!("reference does not support this query: {w}")),
         _ => Ok(()),
     }
@@ -138,8 +195,16 @@ fn explore(ctx: &Ctx) {
         let s = ctx.seed;
         work.sort_by_key(|(gi, dbv)| mc_core::stable_hash(&(s, *gi, dbv)));
     }
+    // per query: (rank of the smallest failing database, what, case, number of failing databases)
+    type Fail = ((usize, bool, String), String, Case, u64);
+    let fails: std::sync::Mutex<BTreeMap<usize, Fail>> = std::sync::Mutex::new(BTreeMap::new());
+    // per confirmed root cause: (rank = (query position, database rank), what, case, count)
+    type CauseFail = ((usize, (usize, bool, String)), String, Case, u64);
+    let cause_fails: std::sync::Mutex<BTreeMap<&'static str, CauseFail>> = std::sync::Mutex::new(BTreeMap::new());
+    let quick_domain = Domain::quick();
+    let in_quick_domain = |dbv: &Database| dbv.tables.iter().all(|t| t.rows.iter().all(|r| r.iter().zip(&t.cols).all(|(v, (_, ty))| quick_domain.of(*ty).contains(v))));
     work.par_iter().for_each(|(gi, dbv)| {
-        if ctx.should_stop() {
+        if ctx.out_of_time() {
             return;
         }
         let sctx = match engine::make_context(dbv, &ContextOptions::default()) {
@@ -150,7 +215,7 @@ fn explore(ctx: &Ctx) {
             }
         };
         for &qi in glist[*gi].1 {
-            if ctx.should_stop() {
+            if ctx.out_of_time() {
                 return;
             }
             let q = &qs[qi];
@@ -179,14 +244,58 @@ fn explore(ctx: &Ctx) {
                 Verdict::MayFail { engine_failed } => ctx.count(if engine_failed { "may_fail_engine_failed" } else { "may_fail_engine_succeeded" }, 1),
                 Verdict::Ambiguous => ctx.count("ambiguous_skipped", 1),
                 Verdict::Unsupported(w) => ctx.machinery_error(format!("reference cannot evaluate {}: {w}", q.sql)),
+                Verdict::KnownCause { key, what } => {
+                    let rank = (qi, (dbv.total_rows(), !in_quick_domain(dbv), dbv.show()));
+                    let mut f = cause_fails.lock().unwrap();
+                    match f.get_mut(key) {
+                        Some(e) => {
+                            e.3 += 1;
+                            if rank < e.0 {
+                                e.0 = rank;
+                                e.1 = what;
+                                e.2 = case();
+                            }
+                        }
+                        None => {
+                            f.insert(key, (rank, what, case(), 1));
+                        }
+                    }
+                }
                 Verdict::Violation(w) => {
-                    let c = case();
-                    let key = format!("{} @ {}", q.sql, dbv.show());
-                    ctx.violation(key, w, serde_json::to_value(&c).unwrap());
+                    // keep only the smallest failing database of each query (deterministic
+                    // whatever the thread schedule): fewest rows, quick-domain values first, then text order
+                    let rank = (dbv.total_rows(), !in_quick_domain(dbv), dbv.show());
+                    let mut f = fails.lock().unwrap();
+                    match f.get_mut(&qi) {
+                        Some(e) => {
+                            e.3 += 1;
+                            if rank < e.0 {
+                                e.0 = rank;
+                                e.1 = w;
+                                e.2 = case();
+                            }
+                        }
+                        None => {
+                            f.insert(qi, (rank, w, case(), 1));
+                        }
+                    }
                 }
             }
         }
     });
+    // one violation per confirmed root cause (fixed key), witnessed by the smallest failing case
+    for (key, (_, what, case, n)) in cause_fails.into_inner().unwrap() {
+        ctx.count(&format!("cases_attributed_to:{key}"), n);
+        ctx.violation(key, format!("{} on {}: {what} [{n} case(s) explained exactly by this root cause; this is the smallest]", case.sql, case.db.show()), serde_json::to_value(&case).unwrap());
+    }
+    // one violation per failing query, simplest query first
+    let fails = fails.into_inner().unwrap();
+    ctx.count("failing_queries", fails.len() as u64);
+    for (qi, (rank, what, case, n)) in fails {
+        let key = format!("{} @ {}", qs[qi].sql, rank.2);
+        ctx.count("failing_query_database_pairs", n);
+        ctx.violation(key, format!("{what} [{n} failing database(s) for this query; this is the smallest]"), serde_json::to_value(&case).unwrap());
+    }
 }
 
 fn replay(v: &Json) -> Result<(), String> {
